@@ -16,7 +16,9 @@
   the elastic constants allowed by the stated hypotheses.
 -/
 import TfelVerif.C21.Lemmas
-import TfelVerif.C21.Gen
+import TfelVerif.C21.GenHyp
+import TfelVerif.C21.GenLame
+import TfelVerif.C21.GenOrtho
 
 namespace TfelVerif.C21.Props
 open TfelVerif TfelVerif.C21
